@@ -11,6 +11,7 @@ import itertools, json, os, re, z3
 from .. import clihooks, clireplay, clistatus, common
 from ..mirsym import Lazy, Agg, Ref, RefV, Sym
 from ..common import Inconclusive
+from ..summaries import canon
 from . import c13, c14
 
 KINDS = ["Complete", "SuccessBufferedOutput", "Diff", "Err"]
@@ -201,6 +202,129 @@ def replay_schedule(sched):
     return (None if ok else f"exit status {res['rc']} (expected {want}) under schedule {script}"), res, want
 
 
+# state that outlives the formatting of one file: allowed classes, by the type of the static
+STATE_OK = [
+    (r"^Atomic<(i32|u32)>$", {"EXIT_CODE", "UNFORMATTED_FILE_COUNT"}, "status / counter atomics (decided by the schedule kernel above and by C13)"),
+    (r"^\[&str; \d+\]$", None, "immutable table"),
+    (r"^&?(\[?&?str\]?|usize|u32|i32|bool)$", None, "immutable scalar"),
+]
+LAZY_STATIC = re.compile(r"lazy_static-[\d.]+/src/lib\.rs")
+
+
+def persistent_state(ses, rep):
+    """S  nothing but the two status atomics survives from one file to the next, on any thread: census of every `static` item and of every
+    thread-local access (`LocalKey::with`..) in the MIR of the library and the binary. lazy_static values are write-once and built from
+    constants only (their initialiser closures take no argument); everything else (thread_local!, Mutex/RefCell/OnceCell statics, static mut)
+    would make a file's result depend on which worker formatted what before."""
+    flagged = []
+    n = 0
+    for crate in ("lib", "bin"):
+        funcs = ses.mir(crate, "default")
+        for name, l in sorted(funcs.items()):
+            for f in l:
+                if f.kind != "fn" and f.text.lstrip().startswith("static"):
+                    n += 1
+                    m_ = re.match(r"^static (?:mut )?([^:]+): (.*?) = \{", f.text.strip().split("\n")[0])
+                    sname, sty = (m_.group(1).strip(), m_.group(2).strip()) if m_ else (name, "?")
+                    mutable = f.text.strip().startswith("static mut")
+                    ok = False
+                    if not mutable:
+                        for pat, names, why in STATE_OK:
+                            if re.match(pat, sty) and (names is None or sname.split("::")[-1] in names):
+                                ok = True
+                        if LAZY_STATIC.search(sname) or sty == sname.split("::")[-1]:       # lazy_static!: `static RE: RE`, and its inner LAZY cell
+                            ok = True
+                    r, m = ses.obligation(f"state/{crate}/static/{sname[-60:]}", [], z3.BoolVal(not ok), "a static item is immutable data, a lazy_static, or a status atomic")
+                    if r == "sat":
+                        flagged.append((f"state/{crate}/static/{sname[-60:]}", f"static `{sname}`: {sty} can carry state from one file to the next", "state", {"where": sname}))
+                    continue
+                for bb, sts in f.blocks.items():
+                    for s_ in sts:
+                        if s_[0] == "call" and re.search(r"(^|[<:\s])LocalKey::<", s_[2]):
+                            n += 1
+                            oid = f"state/{crate}/thread-local/{f.name[-50:]}/{bb}"
+                            r, m = ses.obligation(oid, [], z3.BoolVal(True), "no thread-local state")
+                            if r == "sat":
+                                flagged.append((oid, f"{f.name} keeps thread-local state ({canon(s_[2])[:80]}): what a worker formatted before can change the next file's result",
+                                                "state", {"where": f.name}))
+    rep.bounds["static_items_and_thread_local_sites"] = n
+    if n < 4:
+        raise Inconclusive(f"state census: only {n} static items found")
+    return flagged
+
+
+def replay_state():
+    """directories with different configurations formatted in one run, for several thread counts, against each directory formatted alone"""
+    binp = common.native_build("default")
+    body = "local function f(a)\n\tif a then\n\t\treturn {\n\t\t\tkey = a,\n\t\t\tother = function()\n\t\t\t\treturn 1\n\t\t\tend,\n\t\t}\n\tend\nend\n"
+    cfgs = {"d1": 'indent_type = "Spaces"\nindent_width = 2\n', "d2": 'indent_type = "Spaces"\nindent_width = 8\n', "d3": 'indent_type = "Tabs"\n',
+            "d4": 'indent_type = "Spaces"\nindent_width = 3\nquote_style = "AutoPreferSingle"\n'}
+    files = {}
+    for d_, c_ in cfgs.items():
+        files[f"{d_}/stylua.toml"] = c_
+        for i in range(3):
+            files[f"{d_}/f{i}.lua"] = body + f'local s{i} = "x"\n'
+    want = {}
+    for d_ in cfgs:
+        r = clireplay.run_cli(binp, {k: v for k, v in files.items() if k.startswith(d_ + "/")}, ["--num-threads", "1", d_])
+        want.update({k: v[0] for k, v in r["after"].items() if k.endswith(".lua")})
+    for nt in ("1", "2", "3", "8"):
+        for rep_ in range(3):
+            r = clireplay.run_cli(binp, files, ["--num-threads", nt] + sorted(cfgs))
+            bad = sorted(k for k in want if r["after"].get(k, (None,))[0] != want[k])
+            if bad or r["rc"] != 0:
+                return (f"--num-threads {nt}: {bad[:4]} differ from the result of formatting each directory on its own (exit status {r['rc']})",
+                        {"argv": r["argv"], "files": sorted(files), "differs": bad})
+    return None, {}
+
+
+def jobs_run_on_the_pool(ses, rep):
+    """J  the closures that format a file / stdin are only ever handed to ThreadPool::execute: a job that runs on the walking thread for some
+    thread count changes what a crash in it does (the pool isolates a panic; main does not) and which stack it runs on"""
+    flagged = []
+    funcs = ses.mir("bin", "default")
+    fn = [f for f in funcs.get("format", []) if f.kind == "fn"][0]
+    jobs = []
+    calls_fmt = lambda g: any(s_[0] == "call" and canon(s_[2]).split("::")[-1] in ("format_file", "format_string") for sts in g.blocks.values() for s_ in sts)
+    for n_, l in funcs.items():
+        for f in l:
+            if not re.fullmatch(r"format::\{closure#\d+\}", n_):
+                continue
+            nested = [g for n2, l2 in funcs.items() if n2.startswith(n_ + "::{closure") for g in l2]
+            if calls_fmt(f) or any(calls_fmt(g) for g in nested):
+                m_ = re.search(r"\{closure@[^}]*\}", f.params[0][1]) if f.params else None
+                if m_:
+                    jobs.append((f, m_.group(0)))
+    if not jobs:
+        raise Inconclusive("no job closure calling format_file / format_string found in format()")
+    for f, cid in jobs:
+        uses = [(bb, s_[2]) for bb, sts in fn.blocks.items() for s_ in sts if s_[0] == "call" and cid in s_[2]]
+        direct = [u for u in uses if re.search(r" as Fn(Once|Mut)?<", u[1])]
+        pooled = [u for u in uses if canon(u[1]).split("::<")[0].endswith("ThreadPool::execute")]
+        oid = f"jobs/{f.name}/only-handed-to-the-pool"
+        r, m = ses.obligation(oid, [], z3.BoolVal(bool(direct) or not pooled), "the job closure is passed to ThreadPool::execute and never called directly")
+        if r == "sat":
+            flagged.append((oid, f"{f.name} (a file job) is {'called directly on the walking thread' if direct else 'not handed to the pool'} in format()", "jobs", {"where": f.name}))
+    rep.bounds["job_closures"] = len(jobs)
+    return flagged
+
+
+def replay_jobs():
+    """a worker that panics (debug build: arithmetic overflow with an absurd indent_width) must not change what happens to the other files, for any thread count"""
+    binp = common.native_build("default")
+    files = {"huge/stylua.toml": "indent_width = 9223372036854775807\n", "huge/x.lua": "do\n\tdo\n\t\tdo\n\t\t\tlocal   a = 1\n\t\tend\n\tend\nend\n",
+             "plain/y.lua": clireplay.UNFORMATTED}
+    seen = {}
+    for nt in ("1", "2", "4"):
+        r = clireplay.run_cli(binp, files, ["--num-threads", nt, "huge", "plain"])
+        seen[nt] = (r["rc"], r["after"]["plain/y.lua"][0] == clireplay.FORMATTED.encode(), "panicked" in r["err"])
+    if not any(v[2] for v in seen.values()):
+        return None, {"note": "no worker panicked on this build"}
+    if len({v[:2] for v in seen.values()}) > 1 or any(v[0] != 2 or not v[1] for v in seen.values()):
+        return (f"a panicking file job: (exit status, other file formatted) per --num-threads = { {k: v[:2] for k, v in seen.items()} }; expected (2, True) for every thread count"), {"files": sorted(files)}
+    return None, {}
+
+
 def run(ses, rep):
     quick = rep.tier == "quick"
     K, J = (2, 1) if quick else (3, 2)
@@ -252,6 +376,22 @@ def run(ses, rep):
         rep.add(oid, "inconclusive", f"the status is wrong only on a schedule that needs a failing stdout write inside the output thread "
                 f"(not replayable): {sched}")
     rep.samples.append({"thread_programs": rep.extra["thread_programs"]})
+    st_flagged = persistent_state(ses, rep)
+    if st_flagged:
+        v, rec = replay_state()
+        for oid_, what, kind, info in st_flagged:
+            if v:
+                rep.add(oid_, rep.violation({"obligation": "persistent-state", "where": info["where"]}, {"what": what, "observed": v, "replay_kind": "state", **rec}), f"{what}; {v}")
+            else:
+                rep.add(oid_, "inconclusive", f"{what}: directories with different configurations come out the same for 1, 2, 3 and 8 threads")
+    j_flagged = jobs_run_on_the_pool(ses, rep)
+    if j_flagged:
+        v, rec = replay_jobs()
+        for oid_, what, kind, info in j_flagged:
+            if v:
+                rep.add(oid_, rep.violation({"obligation": "jobs-on-the-pool"}, {"what": what, "observed": v, "replay_kind": "jobs", **rec}), f"{what}; {v}")
+            else:
+                rep.add(oid_, "inconclusive", f"{what}: a panicking job gives the same outcome for 1, 2 and 4 threads on this build")
     if flagged:
         oid, sched = flagged
         rep.samples.append({"counterexample_schedule": sched})
@@ -266,6 +406,20 @@ def run(ses, rep):
 
 def replay(path):
     d = json.load(open(path))
+    if d["replay"].get("replay_kind") == "jobs":
+        v, rec = replay_jobs()
+        print(v or "a panicking job has the same effect for every thread count")
+        if v:
+            print(f"VIOLATION property=C19 replay={path}")
+            return 1
+        return 0
+    if d["replay"].get("replay_kind") == "state":
+        v, rec = replay_state()
+        print(v or "results do not depend on the thread count for directories with different configurations")
+        if v:
+            print(f"VIOLATION property=C19 replay={path}")
+            return 1
+        return 0
     v, res, want = replay_schedule(d["replay"]["schedule"])
     print(v or "property holds under the recorded schedule")
     if v:
